@@ -346,3 +346,18 @@ def _run_permute_kt(case, ctx):
             ok, F = p.call(kind + ".full", lambda: Y.full(), variant="after_permute")
             if ok:
                 p.expect_array(kind + ".full", F, want, variant="after_permute")
+        # depth 2: write to every array the result stores; a permuted object is a value of its own, so the receiver
+        # must keep denoting A
+        ctx.tick()
+        try:
+            bufs = list(getattr(Y, "factor_matrices", []))
+            if kind == "ktensor":
+                bufs.append(Y.weights)
+            elif hasattr(Y, "core"):
+                bufs.append(Y.core.data if hasattr(Y.core, "data") else Y.core.vals)
+            for b in bufs:
+                if isinstance(b, np.ndarray) and b.size and b.flags.writeable:
+                    b[...] = b + 1
+        except Exception:  # noqa: BLE001
+            continue
+        p.expect_array(kind + ".permute", X, A, variant="receiver_after_write_to_result")
